@@ -7,6 +7,7 @@ import (
 	"net/http"
 	"net/url"
 	"strings"
+	"sync"
 
 	"github.com/getkin/kin-openapi/openapi3"
 	"github.com/getkin/kin-openapi/openapi3filter"
@@ -43,6 +44,9 @@ func c19Constraints() []c19Constraint {
 		{"required", gen.S{"type": "object", "required": gen.Arr("zz"), "properties": gen.S{"a": gen.S{"type": "string"}}}, "object"},
 	}
 }
+
+// concurrentRendering: set by the plan loop for the option set whose messages are also rendered by several goroutines at once.
+var concurrentRendering bool
 
 var c19Locations = []string{"path", "query", "header", "cookie", "json-body", "form-body", "response-body", "response-header"}
 
@@ -203,12 +207,17 @@ func runC19Requests(c *core.Ctx) {
 		}
 		rbv, rhv := valueAt("response-body"), valueAt("response-header")
 		for _, multi := range []bool{false, true} {
-			for _, custom := range []bool{false, true} {
+			for ci, custom := range []bool{false, true, true} {
 				opts := &openapi3filter.Options{MultiError: multi, IncludeResponseStatus: true}
 				if custom {
-					opts.WithCustomSchemaErrorFunc(reasonOnly)
+					if ci == 2 {
+						opts.WithCustomSchemaErrorFunc(reasonOnlyYielding)
+					} else {
+						opts.WithCustomSchemaErrorFunc(reasonOnly)
+					}
 				}
-				mode := fmt.Sprintf("multi=%v,custom=%v", multi, custom)
+				concurrentRendering = ci == 2
+				mode := fmt.Sprintf("multi=%v,custom=%v", multi, []string{"none", "reason-only", "reason-only, messages rendered by 4 goroutines at once"}[ci])
 				req := mkReq()
 				if req == nil {
 					continue
@@ -282,6 +291,25 @@ func c19Inspect(c *core.Ctx, doc gen.S, plan, mode, side string, custom bool, er
 		// the whole message: assembled by the validators around reason-only schema messages
 		c.Cover("request_level", side+" whole messages inspected")
 		leak("customised_message", err.Error())
+		if concurrentRendering {
+			// the same error (one Options value, one message function) rendered by several goroutines at once
+			texts := make([]string, 4)
+			var wg sync.WaitGroup
+			for g := range texts {
+				wg.Add(1)
+				go func(g int) {
+					defer wg.Done()
+					for k := 0; k < 3; k++ {
+						texts[g] = err.Error()
+					}
+				}(g)
+			}
+			wg.Wait()
+			c.Cover("request_level", side+" messages rendered concurrently")
+			for _, t := range texts {
+				leak("customised_message_rendered_concurrently", t)
+			}
+		}
 	}
 	c.Distinct("request-level\x00" + plan + "\x00" + mode + "\x00" + side)
 }
